@@ -285,11 +285,24 @@ def run(chk, repo, tier):
     pp = npm.classes['NMTranParser'].methods.get('parse')
     if pp is None:
         raise AnalysisError('NMTranParser.parse not found')
-    splits = [c for c in calls_in(pp.node) if dotted(c.func) == 're.split']
+    # re.split(PATTERN, text, ...) or COMPILED.split(text) with COMPILED = re.compile(PATTERN, ...) (local or module level)
+    def compiled_pattern(e):
+        if isinstance(e, ast.Name):
+            v = next((n.value for n in walk_no_nested(pp.node) if isinstance(n, ast.Assign)
+                      and isinstance(n.targets[0], ast.Name) and n.targets[0].id == e.id), None) or npm.globals_.get(e.id)
+            e = v
+        if isinstance(e, ast.Call) and dotted(e.func) == 're.compile' and e.args and isinstance(e.args[0], ast.Constant):
+            return e.args[0].value
+        return None
+    splits = []
+    for c in calls_in(pp.node):
+        if dotted(c.func) == 're.split' and c.args:
+            splits.append((c, c.args[0].value if isinstance(c.args[0], ast.Constant) else None))
+        elif isinstance(c.func, ast.Attribute) and c.func.attr == 'split' and compiled_pattern(c.func.value) is not None:
+            splits.append((c, compiled_pattern(c.func.value)))
     if not splits:
         raise AnalysisError('re.split not found in NMTranParser.parse')
-    for c in splits:
-        pat = c.args[0].value if isinstance(c.args[0], ast.Constant) else None
+    for c, pat in splits:
         ok = False
         if pat is not None:
             parsed = list(sre_parse.parse(pat))
@@ -301,7 +314,8 @@ def run(chk, repo, tier):
                           'group, so re.split drops it', line=c.lineno,
                           witness='any control stream: "$" or the indentation before it is missing from str(parse(T))')
     joins = [n for n in walk_no_nested(pp.node) if isinstance(n, ast.BinOp) and isinstance(n.op, ast.Add)]
-    loops = [n for n in walk_no_nested(pp.node) if isinstance(n, ast.For) and 'zip' in unparse(n.iter)]
+    # the pairs (separator, body) come from zip(x[0::2], x[1::2]) in a for loop or a comprehension
+    loops = [n for n in ast.walk(pp.node) if isinstance(n, (ast.For, ast.comprehension)) and 'zip' in unparse(n.iter)]
     ok = False
     for lp in loops:
         tv = [unparse(t) for t in lp.target.elts] if isinstance(lp.target, ast.Tuple) else []
@@ -313,7 +327,7 @@ def run(chk, repo, tier):
     if not ok:
         chk.violation(S4, npm.rel, pp.qualname, 'separator + s', 'separator and record body are not re-joined in order',
                       line=pp.node.lineno, witness='str(parse(T)) != T for every T')
-    guard = [n for n in walk_no_nested(pp.node) if isinstance(n, ast.If)
+    guard = [n for n in walk_no_nested(pp.node) if isinstance(n, (ast.If, ast.IfExp))
              and any(isinstance(c, ast.Call) and dotted(c.func) == 'RawRecord' for c in ast.walk(n))]
     if not guard:
         raise AnalysisError('preamble handling (RawRecord(first)) not found')
